@@ -262,6 +262,15 @@ def dense_inputs(rng, in_shape, r):
            # integer-valued fields stored with an integer dtype (coordinates of a grid given with integer parameters,
            # masks, counters): the derivative is a float field all the same
            ("dense integers, dtype int64", base.astype(np.int64)), ("dense integers, dtype int32", base.astype(np.int32))]
+    # the same values in other memory layouts (a transposition view as np.einsum / np.moveaxis / .T return it, Fortran
+    # order, a strided view): the operator is a function of the VALUES
+    out.append(("dense integers, Fortran order", np.asfortranarray(base)))
+    big = np.zeros(tuple(2 * n for n in in_shape))
+    view = big[tuple(slice(None, None, 2) for _ in in_shape)]
+    view[...] = base
+    out.append(("dense integers, strided view", view))
+    if r >= 2:
+        out.append(("dense integers, transposition view", np.swapaxes(np.ascontiguousarray(np.swapaxes(base, 0, 1)), 0, 1)))
     if r >= 2:
         S = base + np.swapaxes(base, 0, 1)
         A = rng.integers(-8, 9, size=in_shape).astype(float)
@@ -326,7 +335,9 @@ def operator_probe(ctx, budget):
                 {"site": "operator-probe", "op": kind[:2], "input": label, "history": bool(hist)}) else 0
         inputs = dense_inputs(nprng, in_shape, r)
         for label, f in inputs:
-            found += check(label, f.astype(float), op(f.copy()), "")
+            # (views are passed as they are: a copy would normalise the memory layout)
+            arg = f if ("order" in label or "view" in label) else f.copy()
+            found += check(label, np.array(f, dtype=float), op(arg), "")
         # histories on the same operator object and the same buffer
         buf = inputs[0][1].copy()
         r1 = op(buf)
